@@ -86,7 +86,7 @@ def outcome(ab, cfg):
     try: return ('ok', expand(ab, cfg))
     except ScannerException as e: return ('scanner', e.pos)
     except TokenScannerException as e: return ('token', e.pos)
-    except RecursionError: raise
+    except RecursionError: return ('internal', 'RecursionError')      # generated abbreviations are shallow: running out of stack is non-termination
     except Exception as e: return ('internal', type(e).__name__)
 
 
